@@ -82,6 +82,189 @@ def c01(tier):
     return jobs, meta
 
 
+# ---- C02 -------------------------------------------------------------------------------
+def conf_jobs(tier, mode):
+    jobs = []
+    for ks in KSS:
+        for (a, m) in aead_window(tier):
+            d = {"KS": ks, "MODE": mode, "ADLEN": a, "MLEN": m}
+            if mode == "siv":
+                d["MODE_SIV"] = None
+            jobs.append(Job("conf-%s-%d-ad%d-m%d" % (mode, ks, a, m), "c02_conf.c", d,
+                            aead_cbmc(ks, mode) + SPEC, aead_native(ks, mode) + SPEC,
+                            unwind=unwind_for(a, m, 32), timeout=300 if tier == "quick" else 900,
+                            facet="conformance-%s" % mode))
+    return jobs
+
+
+SPEC_NOTE = ("oracle: models/tj_spec.c, written from the TinyJAMBU v2 specification text in bit-index style "
+             "(frame bits at state bits 36..38, data at 96..127, keystream from 64..95, partial length at 32..33) "
+             "and validated on every setup run against the repository's six AEAD/SIV KAT files with the bit-serial NLFSR")
+
+
+@prop("C02")
+def c02(tier):
+    jobs = conf_jobs(tier, "aead")
+    meta = {
+        "functions": ["tinyjambu_%d_aead_encrypt" % k for k in KSS] + ["tinyjambu_setup_N", "tinyjambu_absorb_N",
+                                                                       "tinyjambu_generate_tag_N"],
+        "units": ["src/tinyjambu-{128,192,256}-aead.c", "src/backend/tinyjambu-aead-common-{128,192,256}.c"],
+        "bounds": "(adlen, mlen) window as C01; every key/nonce/ad/plaintext byte symbolic; the round count is an "
+                  "argument of the uninterpreted permutation, so a wrong count is a different application",
+        "outside": "lengths outside the window; gcc code generation",
+        "stubs": AEAD_STUBS + [SPEC_NOTE], "assumptions": AEAD_ASSUME,
+        "relies_on": ["C05: permutation(state, ~key words, r) == 128*r steps of the specification NLFSR (composition "
+                      "gives bit-exactness w.r.t. the NLFSR)"],
+    }
+    return jobs, meta
+
+
+# ---- C03 / C04 / C08 decrypt side ------------------------------------------------------------
+def dec_shapes(tier):
+    if tier == "quick":
+        return [(a, m) for a in (0, 1, 5, 8) for m in range(10)] + [(3, 17), (0, 33)]
+    t = set((a, m) for a in range(0, 18, 1) for m in range(18) if a % 2 == 0 or m % 4 == 1)
+    t |= set((a, m) for a in (0, 33) for m in (31, 32, 33, 63, 64, 65, 127, 129, 255, 258))
+    return sorted(t)
+
+
+def dec_jobs(tier, mode, harness="c03_dec.c", tag="dec"):
+    jobs = []
+    for ks in KSS:
+        for (a, m) in dec_shapes(tier):
+            for inplace in (0, 1):
+                d = {"KS": ks, "MODE": mode, "ADLEN": a, "MLEN": m, "INPLACE": inplace}
+                if mode == "siv":
+                    d["MODE_SIV"] = None
+                srcs = aead_cbmc(ks, mode)
+                nat = aead_native(ks, mode)
+                if harness == "c03_call.c":   # the harness supplies check_tag itself
+                    srcs = [x for x in srcs if not x.endswith("tinyjambu-util.c")]
+                    nat = [x for x in nat if not x.endswith("tinyjambu-util.c")]
+                jobs.append(Job("%s-%s-%d-ad%d-m%d-ip%d" % (tag, mode, ks, a, m, inplace), harness, d,
+                                srcs + SPEC, nat + SPEC, unwind=unwind_for(a, m, 32),
+                                timeout=300 if tier == "quick" else 900, facet="%s-%s" % (tag, mode)))
+    return jobs
+
+
+def short_jobs(mode):
+    jobs = []
+    for ks in KSS:
+        for clen in range(8):
+            for a in (0, 5):
+                jobs.append(Job("short-%s-%d-clen%d-ad%d" % (mode, ks, clen, a), "c03_short.c",
+                                {"KS": ks, "MODE": mode, "CLEN": clen, "ADLEN": a},
+                                aead_cbmc(ks, mode), aead_native(ks, mode), unwind=30, timeout=300,
+                                facet="short-input-%s" % mode))
+    return jobs
+
+
+def checktag_jobs(tier):
+    ps = list(range(0, 41)) if tier == "quick" else list(range(0, 41)) + [64, 255, 256, 1000]
+    return [Job("checktag-p%d" % p, "c03_checktag.c", {"PLEN": p}, LIBC + S("backend/tinyjambu-util.c"),
+                S("backend/tinyjambu-util.c"), backend="sat", unwind=p + 12, timeout=600,
+                facet="check_tag-real-code") for p in ps]
+
+
+@prop("C03")
+def c03(tier):
+    jobs = checktag_jobs(tier) + dec_jobs(tier, "aead") + dec_jobs(tier, "aead", "c03_call.c", "call") + short_jobs("aead")
+    meta = {
+        "functions": ["tinyjambu_aead_check_tag (real code, all 2^128 tag pairs per query)"] +
+                     ["tinyjambu_%d_aead_decrypt" % k for k in KSS],
+        "units": ["src/backend/tinyjambu-util.c", "src/tinyjambu-{128,192,256}-aead.c",
+                  "src/backend/tinyjambu-aead-common-{128,192,256}.c"],
+        "bounds": "check_tag: plaintext_len 0..40 (thorough + 64,255,256,1000), all tag pairs, all plaintext bytes; "
+                  "decrypt: arbitrary (key, nonce, ad, body, tag) with tag = spec tag XOR arbitrary delta, shapes "
+                  "ad in {0,1,5,8} x body 0..9 + (3,17),(0,33) (thorough: wider, up to 258), in place and separate; "
+                  "call-contract variant with a recording check_tag; clen 0..7 exhaustively",
+        "outside": "the 2^-64 coincidence bound is a probabilistic statement about the specification's MAC and is not "
+                   "a solver statement; shapes outside the window",
+        "stubs": AEAD_STUBS + [SPEC_NOTE], "assumptions": AEAD_ASSUME, "relies_on": ["C05", "C02 (same model)"],
+    }
+    return jobs, meta
+
+
+@prop("C04")
+def c04(tier):
+    jobs = checktag_jobs(tier)
+    for mode in ("aead", "siv"):
+        jobs += dec_jobs(tier, mode)
+        jobs += dec_jobs(tier, mode, "c03_call.c", "call")
+    meta = {
+        "functions": ["tinyjambu_aead_check_tag (real code)"] + ["tinyjambu_%d_%s_decrypt" % (k, mo) for k in KSS for mo in ("aead", "siv")],
+        "units": ["src/backend/tinyjambu-util.c", "src/tinyjambu-{128,192,256}-{aead,siv}.c",
+                  "src/backend/tinyjambu-aead-common-{128,192,256}.c"],
+        "bounds": "as C03; rejection => every byte of the clen-8 region is zero, acceptance => the specification's "
+                  "plaintext; arbitrary prior buffer contents; in place and separate; 6 cipher variants; check_tag alone "
+                  "with plaintext_len up to 40 (thorough: 1000) shows every byte is ANDed with the verdict mask",
+        "outside": "message lengths outside the window for the end-to-end queries (the clearing loop itself is decided "
+                   "for lengths up to 1000 on check_tag alone, and the call contract shows it receives the full region)",
+        "stubs": AEAD_STUBS + [SPEC_NOTE], "assumptions": AEAD_ASSUME, "relies_on": ["C05"],
+    }
+    return jobs, meta
+
+
+# ---- C08 -------------------------------------------------------------------------------
+@prop("C08")
+def c08(tier):
+    jobs = []
+    for ks in KSS:
+        for (a, m) in aead_window(tier):
+            thin = (a in (0, 5)) if tier == "quick" else (a <= 17 and m <= 17 and a % 3 == 0) or m > 100
+            if tier == "quick" and a > 5 and m > 5:
+                continue
+            for alias in (0, 1, 2, 3):
+                if alias and not thin:
+                    continue
+                jobs.append(Job("rt-siv-%d-ad%d-m%d-alias%d" % (ks, a, m, alias), "c01_rt.c",
+                                {"KS": ks, "MODE": "siv", "ADLEN": a, "MLEN": m, "ALIAS": alias},
+                                aead_cbmc(ks, "siv"), aead_native(ks, "siv"), unwind=unwind_for(a, m, 32),
+                                timeout=300 if tier == "quick" else 900, facet="roundtrip-alias%d" % alias))
+    jobs += dec_jobs(tier, "siv") + dec_jobs(tier, "siv", "c03_call.c", "call") + short_jobs("siv")
+    meta = {
+        "functions": ["tinyjambu_%d_siv_encrypt" % k for k in KSS] + ["tinyjambu_%d_siv_decrypt" % k for k in KSS] +
+                     ["tinyjambu_aead_check_tag"],
+        "units": ["src/tinyjambu-{128,192,256}-siv.c", "src/backend/tinyjambu-aead-common-{128,192,256}.c",
+                  "src/backend/tinyjambu-util.c"],
+        "bounds": "round trip: (adlen, mlen) window of C01 (quick: minus the a>5,m>5 corner), 4 aliasing variants; "
+                  "accept-iff: every (body, tag) pair expressed as honest packet XOR arbitrary (dc, dt); call contract; "
+                  "clen 0..7",
+        "outside": "shapes outside the window; probabilistic collision bound",
+        "stubs": AEAD_STUBS + [SPEC_NOTE], "assumptions": AEAD_ASSUME, "relies_on": ["C05", "C03(a) check_tag on real code"],
+    }
+    return jobs, meta
+
+
+# ---- C09 -------------------------------------------------------------------------------
+@prop("C09")
+def c09(tier):
+    jobs = conf_jobs(tier, "siv")
+    shapes = [(a, m) for a in (0, 3) for m in range(1, 10)] if tier == "quick" else \
+             [(a, m) for a in (0, 3, 8) for m in list(range(1, 18)) + [31, 32, 33, 64, 65, 130]]
+    for ks in KSS:
+        for (a, m) in shapes:
+            for v in (0, 1, 2):
+                jobs.append(Job("ks%d-%d-ad%d-m%d" % (v, ks, a, m), "c09_ks.c",
+                                {"KS": ks, "ADLEN": a, "MLEN": m, "VARIANT": v},
+                                aead_cbmc(ks, "siv"), aead_native(ks, "siv"), unwind=unwind_for(a, m, 32),
+                                timeout=300 if tier == "quick" else 900,
+                                facet=("determinism", "keystream-function-of-key-nonce4-tag", "keystream-depends-on-tag")[v]))
+    meta = {
+        "functions": ["tinyjambu_%d_siv_encrypt" % k for k in KSS] + ["tinyjambu_setup_N", "tinyjambu_absorb_N",
+                                                                      "tinyjambu_generate_tag_N"],
+        "units": ["src/tinyjambu-{128,192,256}-siv.c", "src/backend/tinyjambu-aead-common-{128,192,256}.c"],
+        "bounds": "conformance: (adlen, mlen) window of C01; structural facets: ad in {0,3}, mlen 1..9 (thorough: "
+                  "ad in {0,3,8}, mlen 1..17,31,32,33,64,65,130); everything else symbolic",
+        "outside": "'unrelated bodies beyond chance' is a statistical statement about the permutation and is not a solver "
+                   "statement; decided instead: the keystream is a function of (key, nonce[0..3], tag) only, and it is "
+                   "not independent of the tag for any tail class",
+        "stubs": AEAD_STUBS + [SPEC_NOTE + "; SIV passes per tools/sivref/README.md"], "assumptions": AEAD_ASSUME,
+        "relies_on": ["C05"],
+    }
+    return jobs, meta
+
+
 # ---- replay ----------------------------------------------------------------------------
 def replay(pid, path):
     hdr = {}
